@@ -90,7 +90,7 @@ type Frame struct {
 	// range-over-map iteration state: Range instr -> (keys array, n, pos)
 	iters     map[ssa.Value]*iterState
 	panicking bool
-	recovered bool // a deferred call has recovered this frame's panic: run the remaining defers, then return through the Recover block
+	recovered bool      // a deferred call has recovered this frame's panic: run the remaining defers, then return through the Recover block
 	seq       *seqCalls // statically known closures being run "concurrently" (PerformConcurrently)
 }
 
@@ -141,28 +141,29 @@ func (f *Frame) clone() *Frame {
 }
 
 type State struct {
-	script    *Script
-	heap      map[string]Term
-	epoch     int  // bumped by "havoc everything": untouched keys then start from H<epoch>
-	epochSeq  int  // seq at which the current epoch began
-	epochTop  Term // allocation frontier when the current epoch began
-	frames    []*Frame
-	trace     []Event
-	locks     []LockHeld
-	allocTop  Term
-	now       Term
-	pcs       []string
-	notes     []string
-	fresh     map[string]bool // refs allocated on this path (term text)
-	published map[string]bool
-	pathID    string
-	facts     map[string]bool
-	arrVals   map[string]Value           // "base|idx" -> value stored in a freshly allocated array (static knowledge)
-	seq       int                        // logical time: bumped by allocations and havocs
-	freshSeq  map[string]int             // fresh ref -> seq at allocation
-	roots     map[string]rootInfo        // heap key -> unknown array constant underlying the current version
-	ownKeys   map[string]map[string]bool // fresh ref -> heap keys written at it (to carry private objects across havoc)
-	defCache  map[string]string          // term text -> name it is bound to on this path
+	script       *Script
+	heap         map[string]Term
+	epoch        int  // bumped by "havoc everything": untouched keys then start from H<epoch>
+	epochSeq     int  // seq at which the current epoch began
+	epochTop     Term // allocation frontier when the current epoch began
+	frames       []*Frame
+	trace        []Event
+	locks        []LockHeld
+	allocTop     Term
+	now          Term
+	pcs          []string
+	notes        []string
+	fresh        map[string]bool // refs allocated on this path (term text)
+	published    map[string]bool
+	pathID       string
+	facts        map[string]bool
+	arrVals      map[string]Value           // "base|idx" -> value stored in a freshly allocated array (static knowledge)
+	seq          int                        // logical time: bumped by allocations and havocs
+	freshSeq     map[string]int             // fresh ref -> seq at allocation
+	foreignFresh map[string]bool            // fresh refs handed back by a callee (fields initialised there)
+	roots        map[string]rootInfo        // heap key -> unknown array constant underlying the current version
+	ownKeys      map[string]map[string]bool // fresh ref -> heap keys written at it (to carry private objects across havoc)
+	defCache     map[string]string          // term text -> name it is bound to on this path
 }
 
 type rootInfo struct {
@@ -204,6 +205,10 @@ func (st *State) clone() *State {
 	for k, v := range st.arrVals {
 		n.arrVals[k] = v
 	}
+	n.foreignFresh = make(map[string]bool, len(st.foreignFresh))
+	for k, v := range st.foreignFresh {
+		n.foreignFresh[k] = v
+	}
 	n.freshSeq = make(map[string]int, len(st.freshSeq))
 	for k, v := range st.freshSeq {
 		n.freshSeq[k] = v
@@ -230,6 +235,19 @@ func (st *State) assert(t Term) {
 		return
 	}
 	st.script = st.script.push("(assert " + t.S + ")")
+	st.facts[t.S] = true
+}
+
+// assertBranch records a fact that holds because of the way control flowed
+// (a branch condition), as opposed to a fact assumed from a contract or an
+// invariant. The vacuity guard tells the two apart: a path that dies at a
+// branch is dead code under the contracts; one that dies at an assumption
+// means the assumptions contradict each other.
+func (st *State) assertBranch(t Term) {
+	if t.S == "true" || st.facts[t.S] {
+		return
+	}
+	st.script = st.script.push("(assert " + t.S + ") ;branch")
 	st.facts[t.S] = true
 }
 
@@ -409,7 +427,7 @@ func (e *Exec) cur(st *State, key string, leafSort Sort, two bool) Term {
 	e.rootWF(st, key, t, two)
 	if strings.HasPrefix(key, "ghost:") && !strings.Contains(key, "$") && !two {
 		for ref, seq := range st.freshSeq {
-			if seq > st.epochSeq {
+			if seq > st.epochSeq && !st.foreignFresh[ref] {
 				st.assert(Eq(Select(t, Term{ref, SInt}), zeroOf(leafSort)))
 			}
 		}
@@ -485,7 +503,7 @@ func (e *Exec) loadPlace(st *State, p *Place, snap *HeapView) Value {
 			// memory beyond the allocation frontier reads as zero: an object
 			// allocated after the unknown array constant was introduced has a
 			// zero entry in that constant
-			if isFresh && !two {
+			if isFresh && !two && !st.foreignFresh[p.Base.S] {
 				if r, ok := st.roots[k]; ok && r.seq < fseq {
 					st.assert(Eq(Select(r.t, p.Base), zeroOf(leaves[i].Sort)))
 				}
